@@ -305,6 +305,19 @@ def rule_r3(chk, db):
         bound_first = bound_last = ordered = False
         has_last = not flow.is_none_literal(b, m["last"])
         last_sl = flow.backward(b, m["last"], at=bi)
+        # the place `last` itself (the payload of the `Some(last)` stored in the field), to tell it from `first` when both are fields of one
+        # intermediate value
+        last_l = None
+        rvl = flow.resolve_agg(b, m["last"])
+        if rvl is not None and rvl.get("variant") == "Some" and rvl.get("ops"):
+            last_l = flow.resolve_place(b, rvl["ops"][0])
+
+        def _is(r, target, fallback_locals=None):
+            if r is None:
+                return False
+            if target is not None:
+                return r == target or (r[0] == target[0] and not r[1] and not target[1])
+            return fallback_locals is not None and r[0] in fallback_locals
         for x in cmps:
             blk = x[3]
             for b2, si, st in b.stmts():
@@ -315,14 +328,16 @@ def rule_r3(chk, db):
                 r0, r1 = flow.resolve_place(b, o0), flow.resolve_place(b, o1)
                 s0 = flow.backward(b, o0, at=blk)
                 s1 = flow.backward(b, o1, at=blk)
-                is_first0 = r0 is not None and first_l is not None and r0[0] == first_l[0]
+                is_first0 = first_l is not None and _is(r0, first_l)
+                is_last0 = has_last and not is_first0 and _is(r0, last_l, last_sl.locals)
+                is_last1 = has_last and _is(r1, last_l, last_sl.locals) and not _is(r1, first_l)
                 # `x > MAX` false  /  `x <= MAX` true
                 if c1 == I64MAX and ((x[1] == "Gt" and x[2] is False) or (x[1] == "Le" and x[2] is True)):
                     if is_first0:
                         bound_first = True
-                    elif has_last and (r0 is not None and r0[0] in last_sl.locals):
+                    elif is_last0:
                         bound_last = True
-                if c0 is None and c1 is None and is_first0 and has_last and r1 is not None and r1[0] in last_sl.locals:
+                if c0 is None and c1 is None and is_first0 and is_last1:
                     if (x[1] == "Gt" and x[2] is False) or (x[1] == "Le" and x[2] is True):
                         ordered = True
         chk.verdict(bound_first, "R3", "first<=i64::MAX#%d" % bi, b.loc(bi), "Range::Int is accepted without `first <= 2^63-1` on every path")
